@@ -35,6 +35,7 @@ type h12Env struct {
 	events    atomic.Int64 // permission / channel lifecycle events seen
 	slowPeer  atomic.Value // net.IP: OnPermissionDeleted / OnChannelDeleted for this peer take slowFor (they run under the entry list's lock)
 	slowFor   atomic.Int64
+	permNew   atomic.Int64 // nanoseconds OnPermissionCreated takes
 }
 
 func (e *h12Env) slowIf(ip net.IP) {
@@ -72,7 +73,12 @@ func newH12Env(vt *vhT, bindTimeout time.Duration) *h12Env {
 			return d.Dial(info.Network, info.RemoteAddr.String())
 		},
 		EventHandler: EventHandler{
-			OnPermissionCreated: func(net.Addr, net.Addr, string, string, string, net.Addr, net.IP) { e.events.Add(1) },
+			OnPermissionCreated: func(_, _ net.Addr, _, _, _ string, _ net.Addr, peer net.IP) {
+				e.events.Add(1)
+				if d := time.Duration(e.permNew.Load()); d > 0 {
+					time.Sleep(d)
+				}
+			},
 			OnChannelCreated:    func(net.Addr, net.Addr, string, string, string, net.Addr, net.Addr, uint16) { e.events.Add(1) },
 			OnChannelDeleted: func(_, _ net.Addr, _, _, _ string, _, peer net.Addr, _ uint16) {
 				e.events.Add(1)
@@ -517,6 +523,154 @@ func runH12RefreshVsEntryExpiry(vt *vhT, kind string) {
 	vt.Obs("ok")
 }
 
+// the REFRESH of a channel binding whose permission has meanwhile run out re-installs the permission; the user's
+// OnPermissionCreated callback then runs - it must not run with a hold on the bindings, which every relayed datagram reads
+func runH12CallbackVsDataPath(vt *vhT) {
+	vt.OpSync("slowcb OnPermissionCreated bind-refresh 1")
+	e := newH12Env(vt, 2*time.Second)
+	if e == nil {
+		vt.Obs("ok")
+
+		return
+	}
+	defer e.close()
+	alice, _ := e.alloc("alice", proto.ProtoUDP, time.Minute)
+	if alice == nil {
+		vt.Obs("ok")
+
+		return
+	}
+	p := &net.UDPAddr{IP: net.IPv4(127, 0, 0, 21), Port: 2100}
+	if err := alice.AddChannelBind(NewChannelBind(0x4010, p, e.m.log), time.Minute, 100*time.Millisecond); err != nil {
+		vt.Alarm("h12-setup", "callback-vs-data-path: %v", err)
+		vt.Obs("ok")
+
+		return
+	}
+	for end := time.Now().Add(2 * time.Second); alice.GetPermission(p) != nil && time.Now().Before(end); {
+		time.Sleep(10 * time.Millisecond)
+	}
+	e.permNew.Store(int64(500 * time.Millisecond))
+	done := make(chan struct{})
+	go func() {
+		_ = alice.AddChannelBind(NewChannelBind(0x4010, p, e.m.log), time.Minute, time.Minute) // the refresh; OnPermissionCreated sleeps 500 ms
+		close(done)
+	}()
+	time.Sleep(100 * time.Millisecond)
+	t0 := time.Now()
+	found := alice.GetChannelByAddr(p) != nil // what the relay does for every datagram of this peer
+	took := time.Since(t0)
+	if took > 250*time.Millisecond {
+		vt.Alarm("data-path-blocked-by-callback", "while OnPermissionCreated (500 ms) ran for the refresh of a channel binding, the relay's lookup GetChannelByAddr took %v (found=%v): "+
+			"the callback runs with the bindings locked", took.Round(10*time.Millisecond), found)
+	}
+	<-done
+	e.permNew.Store(0)
+	vt.Obs("ok")
+}
+
+// an entry whose lifetime has run out no longer authorises anything, even while its removal is still queued behind a lock that
+// a user callback holds: lookups decide by the expiry time, not by presence
+func runH12ExpiredStillAuthorises(vt *vhT, kind string) {
+	vt.OpSync("slowcb expired-%s-lookup none 1", kind)
+	e := newH12Env(vt, 2*time.Second)
+	if e == nil {
+		vt.Obs("ok")
+
+		return
+	}
+	defer e.close()
+	alice, _ := e.alloc("alice", proto.ProtoUDP, time.Minute)
+	if alice == nil {
+		vt.Obs("ok")
+
+		return
+	}
+	p1 := &net.UDPAddr{IP: net.IPv4(127, 0, 0, 31), Port: 1000}
+	p2 := &net.UDPAddr{IP: net.IPv4(127, 0, 0, 32), Port: 2000}
+	e.slowPeer.Store(p1.IP)
+	e.slowFor.Store(int64(500 * time.Millisecond))
+	t0 := time.Now()
+	var err error
+	if kind == "permission" {
+		alice.AddPermission(NewPermission(p1, e.m.log, 150*time.Millisecond))
+		alice.AddPermission(NewPermission(p2, e.m.log, 250*time.Millisecond))
+	} else {
+		err = alice.AddChannelBind(NewChannelBind(0x4021, p1, e.m.log), 150*time.Millisecond, time.Minute)
+		if err == nil {
+			err = alice.AddChannelBind(NewChannelBind(0x4022, p2, e.m.log), 250*time.Millisecond, time.Minute)
+		}
+	}
+	if err != nil {
+		vt.Alarm("h12-setup", "expired-%s-lookup: %v", kind, err)
+		vt.Obs("ok")
+
+		return
+	}
+	// t0+150: entry 1 expires, its deleted-callback holds the list's lock until t0+650; entry 2 expires at t0+250, its removal
+	// queues; the relay's lookup for entry 2 at t0+400 queues too and is served when the lock is released
+	time.Sleep(time.Until(t0.Add(400 * time.Millisecond)))
+	var auth bool
+	if kind == "permission" {
+		auth = alice.GetPermission(p2) != nil
+	} else {
+		auth = alice.GetChannelByNumber(0x4022) != nil || alice.GetChannelByAddr(p2) != nil
+	}
+	at := time.Since(t0)
+	if auth && at > 300*time.Millisecond {
+		vt.Alarm("expired-entry-still-authorises", "the %s of %s (lifetime 250 ms) still authorises a lookup answered %v after it was installed: its removal was queued behind "+
+			"another entry's deleted-callback", kind, p2, at.Round(10*time.Millisecond))
+	}
+	vt.Obs("ok")
+}
+
+// DeleteAllocation racing with a handler that attaches: whatever the interleaving, nothing stays attached to the dead allocation
+func runH12AttachRacesDelete(vt *vhT, rounds int) {
+	vt.OpSync("slowcb attach-vs-delete none %d", rounds)
+	e := newH12Env(vt, 2*time.Second)
+	if e == nil {
+		vt.Obs("ok")
+
+		return
+	}
+	defer e.close()
+	left := 0
+	for i := 0; i < rounds && left == 0; i++ {
+		alice, ft := e.alloc("alice", proto.ProtoUDP, time.Minute)
+		if alice == nil {
+			break
+		}
+		p := &net.UDPAddr{IP: net.IPv4(127, 0, 1, byte(i)), Port: 3000}
+		start := make(chan struct{})
+		var wg sync.WaitGroup
+		wg.Add(2)
+		go func() { defer wg.Done(); <-start; e.m.DeleteAllocation(ft) }()
+		go func() {
+			defer wg.Done()
+			<-start
+			if i%2 == 0 {
+				_ = alice.AddChannelBind(NewChannelBind(0x4030, p, e.m.log), time.Minute, time.Minute)
+			} else {
+				alice.AddPermission(NewPermission(p, e.m.log, time.Minute))
+			}
+		}()
+		close(start)
+		wg.Wait()
+		if n := len(alice.ListPermissions()) + len(alice.ListChannelBindings()); n != 0 {
+			left++
+			vt.Alarm("state-attached-to-dead-allocation", "round %d: DeleteAllocation raced with a handler attaching to the allocation: %d entries are left on the deleted allocation "+
+				"(permissions %d, bindings %d), their timers running", i, n, len(alice.ListPermissions()), len(alice.ListChannelBindings()))
+			for _, pm := range alice.ListPermissions() {
+				alice.RemovePermission(pm.Addr)
+			}
+			for _, cb := range alice.ListChannelBindings() {
+				alice.RemoveChannelBind(cb.Number)
+			}
+		}
+	}
+	vt.Obs("ok")
+}
+
 func TestVerifH12(t *testing.T) {
 	vt := vhOpen("h12")
 	defer vt.Close()
@@ -536,7 +690,17 @@ func TestVerifH12(t *testing.T) {
 	for _, kind := range []string{"permission", "channel"} {
 		runH12RefreshVsEntryExpiry(vt, kind)
 		vt.Flush()
+		runH12ExpiredStillAuthorises(vt, kind)
+		vt.Flush()
 	}
+	runH12CallbackVsDataPath(vt)
+	vt.Flush()
+	rounds := 1500
+	if vt.Thorough() {
+		rounds = 20000
+	}
+	runH12AttachRacesDelete(vt, rounds)
+	vt.Flush()
 	for _, cause := range []string{"expiry", "delete"} {
 		runH12DialOutlivesAllocation(vt, cause)
 		vt.Flush()
